@@ -59,7 +59,7 @@ def run(ctx):
     if ctx.replay and "cases" in ctx.replay:
         cases = [tuple(x) for x in ctx.replay["cases"]]
         return compare(ctx, model, H, cases, {}, replaying=True)
-    g, vals = gen_cases(ctx, 60 if quick else 1500)
+    g, vals = gen_cases(ctx, 60 if quick else 600)
     # corpus first
     cases = [("k0", "consts", [])]
     cdir = os.path.join(vlib.VERIF, "corpus", "C11")
